@@ -410,7 +410,7 @@ pub fn run_check(spec: &PropSpec, args: &CheckArgs) -> i32 {
             known_seen.push(key.clone());
             continue;
         }
-        let mut min_entries = if f.run == u64::MAX && f.entries.iter().all(|(k, _)| k != "cfg") {
+        let mut min_entries = if f.run == u64::MAX && (f.entries.iter().all(|(k, _)| k != "cfg") || f.entries.iter().any(|(k, _)| k == "override")) {
             f.entries.clone()
         } else {
             minimise(spec, &f.entries, key, 1500)
